@@ -62,6 +62,9 @@ pub fn block_on<F: Future>(mut future: F) -> F::Output {
         CURRENT_CYCLE.with(|cell| cell.set(clock));
         NEXT_WAKE_CYCLE.with(|cell| cell.set(None));
         if let Poll::Ready(output) = future.as_mut().poll(&mut cx) {
+            // block_on has no event consumer: drop an event emitted in the completing poll too,
+            // otherwise it stays in the thread-local slot and surfaces in the next AsyncDriver.
+            let _ = take_pending_event();
             return output;
         }
         let next = NEXT_WAKE_CYCLE
